@@ -19,14 +19,6 @@ import faulthandler
 def _serve(repo):
     from . import engine
 
-    cpu = os.environ.get("VERIF_CPU")
-    if cpu not in (None, ""):
-        try:
-            # all client threads of a run on one core: baton hand-offs then never
-            # wait for a cross-core wake-up
-            os.sched_setaffinity(0, {int(cpu) % (os.cpu_count() or 1)})
-        except OSError:
-            pass
     engine.bind(repo)
     import gc
 
@@ -65,6 +57,13 @@ def _serve(repo):
             code = 0
             try:
                 os.close(r)
+                if job.get("cpu") is not None:
+                    try:
+                        # all client threads of a run on one core: baton hand-offs
+                        # then never wait for a cross-core wake-up
+                        os.sched_setaffinity(0, {int(job["cpu"]) % (os.cpu_count() or 1)})
+                    except OSError:
+                        pass
                 faulthandler.enable()
                 faulthandler.dump_traceback_later(max(1.0, limit - 2.0), exit=True)
                 try:
